@@ -361,6 +361,10 @@ def main(tier, seed, replay):
                 f.write(''.join(c.text() for c in cs if not is_big(c)))
     else:
         big = [c for c in Spec.corpus(SPEC) if is_big(c)]
+        if tier == 'quick' and not os.environ.get('VERIF_BIG'):
+            # 2^30 swap callbacks take 10-45 s depending on the load of the machine: the quick tier keeps the
+            # (cheap) search cases and relies on FindingsSort.F11_reverse_int_index_refuted + the model for reverse
+            big = [c for c in big if not any(o.startswith('bigreverse') for o in c.ops)]
     res = {}
     th = None
     if big:
